@@ -61,7 +61,9 @@ def partition_column(draw, name, kinds=("int", "float", "bool", "datetime", "tex
         col["sub"] = "float64"
         if draw(st.integers(0, 3)) == 0:
             col["ext"] = "Float64"      # the pandas masked float type
-        col["pool"] = draw(st.lists(st.sampled_from([0.5, 1.0, -2.25, 1e5, 0.7, 100.0, 3.0, -0.5, 2.5]),
+        # (some keys need all 17 significant digits: 0.1 + 0.2, 1 / 3, and a neighbour of 0.3 that agrees with it to 15)
+        col["pool"] = draw(st.lists(st.sampled_from([0.5, 1.0, -2.25, 1e5, 0.7, 100.0, 3.0, -0.5, 2.5, 0.30000000000000004, 0.3,
+                                                     0.3333333333333333, 0.6666666666666666, 1e-7, 123456789.12345679, 1e22]),
                                     min_size=1, max_size=4, unique=True))
         if nulls and draw(st.integers(0, 4)) == 0:
             null = draw(frames.null_spec(True, ["some", "first_only", "last_only"]))
